@@ -62,7 +62,7 @@ prop('C01',
                   'store_ops.Store::iter_frames.body', 'store_ops.Store::get.body', 'store_ops.read_sync_filter.body', 'store_ops.read_sync_chain.body',
                   'read.history.*', 'read_ops.read_history.body',
                   # "not since ... evicted": which frames the head:N collector may and must evict
-                  'store.gc_head.*', 'store_ops.gc_head_arm.body'],
+                  'store.gc_head.*', 'store_ops.gc_head_arm.body', 'store.gc_remove.*', 'store_ops.gc_remove_arm.body'],
      trusted=STORE_TRUST,
      explanation='Each clause of C01 that is decided by sequential code is a postcondition of the real function (extracted from '
                  '/repo at run time) discharged by Verus for all inputs; the order filter-then-take of read_sync and the history '
@@ -132,8 +132,8 @@ prop('C08',
            'queues CheckHeadTTL only for a stored head:N frame with that context, topic and N; remove deletes only the three entries '
            'of the frame it read.',
      technique=TECH,
-     units=['verus:expiry', 'verus:store_ops', 'verus:keys', 'kani:k1'],
-     obligations=['k1.timestamp_is_top_48_bits', 'lemma.L1.*', 'lemma.L4.*', 'expiry.is_expired.*', 'expiry.is_expired.body', 'store.read_sync.*', 'store.gc_head.*', 'store.append.store_then_broadcast',
+     units=['verus:expiry', 'verus:store_ops', 'verus:keys', 'verus:read_ops', 'kani:k1'],
+     obligations=['read.history.remove_only_expired', 'read_ops.read_history.body', 'k1.timestamp_is_top_48_bits', 'lemma.L1.*', 'lemma.L4.*', 'expiry.is_expired.*', 'expiry.is_expired.body', 'store.read_sync.*', 'store.gc_head.*', 'store.gc_remove.*', 'store_ops.gc_remove_arm.body', 'store.append.store_then_broadcast',
                   'store.append.ephemeral_not_stored', 'store.remove.three_tombstones', 'store.remove.nothing_else_touched',
                   'keys.prefix.layout', 'keys.from_frame.layout', 'keys.id_from_key.last16',
                   'store_ops.gc_head_arm.body', 'store_ops.read_sync_filter.body'],
@@ -146,13 +146,15 @@ prop('C08',
 prop('C09',
      level='proof',
      claim='Unbounded Verus proofs: an Ephemeral frame is broadcast exactly once and nothing is stored; is_expired is exact in '
-           'milliseconds so a time:N frame is filtered from a read once N ms have passed and a Remove is queued for it; after the '
+           'milliseconds so a time:N frame is filtered from a read (read_sync and the history thread of read alike) once N ms have passed and a Remove is queued for it on every exit of the scan; after the '
            'head:N collector arm ran without storage errors no frame beyond the newest N entries of exactly that (context, topic) '
            'prefix remains.',
      technique=TECH,
-     units=['verus:expiry', 'verus:store_ops'],
-     obligations=['store.append.ephemeral_not_stored', 'store.append.stored', 'expiry.is_expired.*', 'store.read_sync.*', 'store.gc_head.*',
-                  'store.remove.three_tombstones', 'store.remove.errors_propagated', 'store_ops.gc_head_arm.body'],
+     units=['verus:expiry', 'verus:store_ops', 'verus:read_ops'],
+     obligations=['store.append.ephemeral_not_stored', 'store.append.stored', 'expiry.is_expired.*', 'store.read_sync.*', 'store.gc_head.*', 'store.gc_remove.*', 'store_ops.gc_remove_arm.body',
+                  'store.remove.three_tombstones', 'store.remove.errors_propagated', 'store_ops.gc_head_arm.body',
+                  # the streaming read path: the history thread withholds exactly the expired frames and queues a Remove for each, on every exit
+                  'read.history.remove_only_expired', 'read.history.post', 'read_ops.read_history.body'],
      trusted=STORE_TRUST + ['duration'],
      explanation='See C08; plus the ephemeral branch of append and the eviction direction of the collector arm.',
      not_decided='"after the collector has drained" as a schedule statement; reopen; parse_ttl text (head:0 rejection) is bounded, see C12')
